@@ -16,6 +16,7 @@ package main
 import (
 	"bufio"
 	"context"
+	"errors"
 	"flag"
 	"fmt"
 	"io"
@@ -343,8 +344,29 @@ func famFault(e *env, root *core.Rand, n int) {
 		other := maker(r.Fork(2), 0, 0.1)
 		rec.IDs = []uuid.UUID{mk().ID, other().ID}
 		rec.Create(other(), other(), "create-other")
-		mode := i % 3
+		mode := i % 4
 		switch mode {
+		case 3: // duplicate id, DIFFERENT definition, while ReadItem answers a non-404 error: the Exists
+			// pre-check fails, Create must return the error and must not have written anything
+			alt := func() *workflow.Plan {
+				q := maker(r.Fork(3), (i/4)%2, 0.3)()
+				q.ID = mk().ID
+				storelib.SetPlanIDs(q)
+				return q
+			}
+			rec.Create(mk(), mk(), "create")
+			b.Cosmos.SetReadItemErr(errors.New("429 too many requests (injected)"))
+			err := b.Vault.Create(ctx, alt())
+			b.Cosmos.SetReadItemErr(nil)
+			rec.Created_(alt(), err, "create-duplicate-other-content-while-reads-fail", "(CCreateStage 3)")
+			// and a fresh id under the same fault: nothing may be written either
+			fresh := maker(r.Fork(4), 0, 0.1)
+			rec.IDs = append(rec.IDs, fresh().ID)
+			b.Cosmos.SetReadItemErr(errors.New("503 service unavailable (injected)"))
+			err = b.Vault.Create(ctx, fresh())
+			b.Cosmos.SetReadItemErr(nil)
+			rec.Created_(fresh(), err, "create-fresh-while-reads-fail", "(CCreateStage 3)")
+			rec.Create(fresh(), fresh(), "create-clean")
 		case 0: // the plan batch fails
 			b.Cosmos.SetCreateItemErr(true)
 			err := b.Vault.Create(ctx, mk())
@@ -482,7 +504,7 @@ func main() {
 	nDup := flag.Int("dup", 12, "cases")
 	nInter := flag.Int("interleave", 18, "cases")
 	nCollide := flag.Int("collide", 10, "cases")
-	nFault := flag.Int("fault", 9, "cases")
+	nFault := flag.Int("fault", 12, "cases")
 	nKill := flag.Int("kill", 0, "cases (thorough)")
 	out := flag.String("out", "-", "output file (JSONL)")
 	childDir := flag.String("child-kill", "", "internal: run as the child of the kill family on this directory")
